@@ -1,5 +1,6 @@
 import HmcVerif.Exec.C01
 import HmcVerif.Exec.C02
+import HmcVerif.Exec.C03
 import HmcVerif.Exec.C19
 open HmcVerif
 
@@ -12,6 +13,8 @@ def dispatch (cmd : String) : Option (P String) :=
   | "c02.hmc" => some C02.hmc
   | "c02.accept" => some C02.acc
   | "c02.autotune" => some C02.autotune
+  | "c03.mass" => some C03.mass
+  | "c03.bfgs" => some C03.bfgs
   | "c16.tunerun" => some C02.tunerun
   | "c16.lrok" => some C02.lrok
   | "c19.gd" => some C19.gd
